@@ -70,6 +70,14 @@ type regEnv struct {
 }
 
 func newRegEnv(ctx *Ctx) *regEnv {
+	e := newRegEnvLocal(ctx)
+	e.pin = loadPin(ctx)
+	return e
+}
+
+// newRegEnvLocal: everything but the pin (which needs the Lean driver): also used by the child process of
+// registry_rt.go. extra: Go types of the harness itself (registered at run time by that child).
+func newRegEnvLocal(ctx *Ctx, extra ...reflect.Type) *regEnv {
 	e := &regEnv{dump: ttlv.VerifDumpRegistry(), enumType: map[int]reflect.Type{}, maskType: map[int]reflect.Type{}, tagNames: map[int]string{}, usedUnder: map[string]map[int]bool{}}
 	e.live = indexDump(e.dump)
 	for _, t := range e.dump.Tags {
@@ -87,6 +95,9 @@ func newRegEnv(ctx *Ctx) *regEnv {
 			e.types[ty.String()] = ty
 			ctx.Res.Count("types.static-only:" + ty.String())
 		}
+	}
+	for _, ty := range extra {
+		e.types[ty.String()] = ty
 	}
 	for _, u := range e.uses {
 		if e.usedUnder[u.ty.String()] == nil {
@@ -120,8 +131,31 @@ func newRegEnv(ctx *Ctx) *regEnv {
 	if all := len(e.dump.EnumTypes) + len(e.dump.BitmaskTypes); all == 0 || reached*2 < all {
 		ctx.Res.Fail(fmt.Sprintf("lost evidence: the harness reaches only %d of the %d enumeration / mask Go types the library registers: the typed conversions (MarshalText / UnmarshalText, typed fields) went unchecked", reached, all))
 	}
-	e.pin = loadPin(ctx)
 	return e
+}
+
+// reindex takes a new dump of the live registry (after a run-time registration, registry_rt.go).
+func (e *regEnv) reindex() {
+	e.dump = ttlv.VerifDumpRegistry()
+	e.live = indexDump(e.dump)
+	e.tagNames, e.enumType, e.maskType = map[int]string{}, map[int]reflect.Type{}, map[int]reflect.Type{}
+	for _, t := range e.dump.Tags {
+		e.tagNames[int(t.Value)] = t.Name
+	}
+	for _, t := range e.dump.EnumTypes {
+		if ty, ok := e.types[t.Name]; ok && ttlv.VerifIsEnum(ty) {
+			if _, dup := e.enumType[int(t.Value)]; !dup {
+				e.enumType[int(t.Value)] = ty
+			}
+		}
+	}
+	for _, t := range e.dump.BitmaskTypes {
+		if ty, ok := e.types[t.Name]; ok && ttlv.VerifIsBitmask(ty) {
+			if _, dup := e.maskType[int(t.Value)]; !dup {
+				e.maskType[int(t.Value)] = ty
+			}
+		}
+	}
 }
 
 // ---- small helpers -----------------------------------------------------------------------------------
@@ -1214,6 +1248,7 @@ func (e *regEnv) oracles(ctx *Ctx) {
 	e.oraclePin(ctx)
 	e.oracleAttributes(ctx)
 	e.oracleVectors(ctx)
+	oracleRuntimeRegistrations(ctx)
 }
 
 // genTyped: every enumeration type x {its own tag, AttributeValue, every element tag under which the library's
